@@ -8,6 +8,7 @@ import TdVerif.Model.C08Out
 import TdVerif.Model.C08View
 import TdVerif.Model.C08UpdateAt
 import TdVerif.Model.C08SetMask2
+import TdVerif.Model.C08SetTensor
 
 namespace TdVerif.Drive
 open TdVerif Sexp TdVerif.C08
@@ -152,6 +153,18 @@ def handleC08 (cmd : String) (args : List Sexp) : Option Sexp :=
       match (convertEllipsis ix L.batch.length).bind fun ix' => idxShape ix' L.batch with
       | none => pure (tagged "err" [])
       | some ibs => pure (membersToSexp (lazySetM L ix (mkValue ibs feats)))
+  -- (c08.set_tensor (bs ..) n sd (feats ..) (ix ..) (vshape ..)) : the members after `lazy[index] = tensor`,
+  -- the tensor being `900000 + arange` of shape vshape
+  | "c08.set_tensor", [bs, n, sd, feats, ix, vshape] => do
+      let bs ← shapeOf? bs
+      let n ← asNat? n
+      let sd ← asNat? sd
+      let feats ← featsOf? feats
+      let ix ← ixsOf? ix
+      let vshape ← shapeOf? vshape
+      let L := mkLazy bs n sd feats
+      let featOf (k : String) : Shape := ((feats.find? (·.1 == k)).map (·.2)).getD []
+      pure (membersToSexp (lazySetTensor L (feats.map (·.1)) featOf ix (T.arange 900000 vshape)))
   -- (c08.update_at (bs ..) n sd (feats ..) (ix ..)) : the members after `lazy.update_at_(value, index)`
   | "c08.update_at", [bs, n, sd, feats, ix] => do
       let bs ← shapeOf? bs
